@@ -50,7 +50,10 @@ RULE = (
     "<=3999, letter values <=26 outside the tagged family. Text: PDFDocEncoding strings use only codes Annex D "
     "defines (HT LF CR, 0x18-0x1F, 0x20-0x7E, 0x80-0x9E, 0xA0-0xFF without 0xAD) and never start with FE FF or EF BB "
     "BF; UTF-16 strings are well formed (paired surrogates, even length) and contain no U+001B language escape. "
-    "Destination values are never empty/falsy; a name object is never looked up under the spelling of a name-tree key. "
+    "Destination values are never empty/falsy. Name objects and strings are separate namespaces (12.3.2.3: names -> "
+    "catalog /Dests dictionary, strings -> /Names /Dests tree): documents carry the same spelling in both with "
+    "different targets, and spellings that exist in only one of them are looked up through the other (expected: "
+    "PDFDestinationNotFound). "
     "distinct = distinct file bytes (documents) or string bytes (text); non-trivial = a document with >=2 label "
     "ranges, or >=2 outline items, or >=2 tree entries, or a tree of >=2 nodes; a text string with >=1 character "
     "outside ASCII or carrying a byte-order mark."
@@ -251,7 +254,7 @@ def check_case(case: Dict[str, Any]) -> Tuple[List[Tuple[str, str]], Dict[str, i
     # ---------------------------------------------------------------- destinations
     seen_keys = set()
     for key, exp, cls in case["lookups"]:
-        kind = cls.split(":")[0]
+        kind = cls if exp is not None else cls.split(":")[0]
         try:
             v = call(lambda: doc.get_dest(key))
         except PDFDestinationNotFound:
@@ -281,6 +284,8 @@ def check_case(case: Dict[str, Any]) -> Tuple[List[Tuple[str, str]], Dict[str, i
             continue
         gotv = norm_pm(v)
         obs["lookups_present"] = obs.get("lookups_present", 0) + 1
+        if gotv == exp and ":" in cls:
+            obs["present:" + cls] = obs.get("present:" + cls, 0) + 1
         if gotv != exp:
             k = "dest_wrong_value:" + kind
             if k not in seen_keys:
@@ -436,10 +441,13 @@ def minimums(tier: str) -> Dict[str, int]:
             "dumpoutline_pageno:action:name>dict>Dref": 30, "dumpoutline_pageno:action_indirect:explicit": 5000,
             "feat:limits_with_indirect_elements": 5000, "feat:nt_trees_limit_elems_indirect_2plus_leaves": 300,
             "feat:pl_trees_limit_elems_indirect": 300,
+            "present:dict_present:shared_spelling": 1500, "present:tree_present:shared_spelling": 1500,
+            "absent:dict_absent:spelled_like_tree_key": 800, "absent:dict_absent:no_dict:spelled_like_tree_key": 1000,
+            "absent:tree_absent:spelled_like_dict_name": 3000, "feat:docs_with_shared_name_and_string_spellings": 800,
             "trees_with_direct_kids:nt": 800, "trees_with_direct_kids:pl": 800, "feat:direct_kid_nodes": 8000}
     if tier != "quick":
         base = {k: v * 22 for k, v in base.items()}
-    base.update({"seen:absent_classes": 8, "seen:label_styles": 6, "seen:pdfdoc_codes": 232, "seen:roman_values": 3999,
+    base.update({"seen:absent_classes": 11, "seen:label_styles": 6, "seen:pdfdoc_codes": 232, "seen:roman_values": 3999,
                  "seen:target_kinds": 8, "seen:tree_modes": 5, "seen:direct_kid_trees": 20, "seen:dumpoutline_dest_forms": 24, "docs:enum_roman": 80, "docs:enum_alpha": 104,
                  "text:enum_pdfdoc": 400, "text:enum_utf16": 441})
     return base
